@@ -172,9 +172,9 @@ ReuseOk(w, t, F)   == /\ \E p \in F : p.repo = "vdb" /\ Matches(t, p)
 SeqSet(s) == {s[k] : k \in DOMAIN s}
 \* targets is a SEQUENCE here; ok = the resolver reported success.  Judged only inside Robust
 \* (for the whole target set: a later target may legitimately veto an earlier one's highest version).
-PolicyViolations(kind, w, targets, ok, ops) ==
+PolicyViolationsIn(robust, kind, w, targets, ok, ops) ==
   LET F == Final(w, ops) IN
-  IF ~Robust(w, SeqSet(targets)) THEN {}
+  IF ~robust THEN {}
   ELSE IF kind = "upgrade" THEN
      {V("Upgrade_failed", "-", targets[k].key, "-") : k \in {j \in DOMAIN targets : ~ok}}
      \cup {V("Upgrade_highest", "-", targets[k].key, "-") : k \in {j \in DOMAIN targets : ok /\ ~UpgradeOk(w, targets[j], F)}}
@@ -183,8 +183,11 @@ PolicyViolations(kind, w, targets, ok, ops) ==
      \cup {V("Reuse_installed", "-", targets[k].key, "-") :
              k \in {j \in DOMAIN targets : ok /\ ReuseApplies(w, targets[j]) /\ ~ReuseOk(w, targets[j], F)}}
   ELSE {}
-PolicyJudged(kind, w, targets) ==
-  IF kind \in {"upgrade", "min"} /\ Robust(w, SeqSet(targets))
+PolicyViolations(kind, w, targets, ok, ops) ==
+  PolicyViolationsIn(Robust(w, SeqSet(targets)), kind, w, targets, ok, ops)
+\* how many target clauses are inside the judged domain
+PolicyJudgedIn(robust, kind, w, targets) ==
+  IF kind \in {"upgrade", "min"} /\ robust
   THEN Cardinality({j \in DOMAIN targets : kind = "min" => ReuseApplies(w, targets[j])}) ELSE 0
 
 (* ------------------------------------------------------------------ *)
